@@ -13,11 +13,13 @@ import (
 	"strings"
 	"time"
 
+	"golang.org/x/tools/go/analysis"
 	"honnef.co/go/tools/analysis/lint"
 	"honnef.co/go/tools/internal/verifhook"
 	"honnef.co/go/tools/internal/verifsim"
 	"honnef.co/go/tools/internal/verifsim/simos"
 	"honnef.co/go/tools/lintcmd"
+	"honnef.co/go/tools/lintcmd/runner"
 	"honnef.co/go/tools/simple"
 	"honnef.co/go/tools/staticcheck"
 	"honnef.co/go/tools/stylecheck"
@@ -36,6 +38,11 @@ func Analyzers() []*lint.Analyzer {
 		analyzers = append(analyzers, staticcheck.Analyzers...)
 		analyzers = append(analyzers, stylecheck.Analyzers...)
 		analyzers = append(analyzers, unused.Analyzer)
+		var as []*analysis.Analyzer
+		for _, a := range analyzers {
+			as = append(as, a.Analyzer)
+		}
+		runner.VerifWarmGob(as)
 	}
 	return analyzers
 }
@@ -67,6 +74,7 @@ var salt = []byte("verif-simulated-binary-build-id")
 
 func init() {
 	verifhook.BaseEnv = os.Environ()
+	Analyzers() // pins gob type ids before anything is encoded (runner.VerifWarmGob)
 }
 
 // Session is the body of a simulation: it may attach a disk and run linter
